@@ -7,17 +7,21 @@ from ranges import *
 
 MANIFEST = {
     'category': 'other',
-    'text': 'Every path through one iteration of the four with-replacement wrappers (Decoder::decode_to_utf8/utf16, '
-            'Encoder::encode_from_utf8/utf16) is enumerated from MIR and summarised symbolically; the rules decide, for all '
-            'inputs and call histories at once, that each iteration makes exactly one without-replacement call on '
-            'src[total_read..] / dst[total_written..(effective_dst_len)] with the caller\'s `last`, that totals accumulate the '
-            'inner counts, that the error flag starts false and becomes true only in the Malformed/Unmappable arm, that this '
-            'arm stores exactly EF BF BD (resp. FFFD) or the NCR at dst[total_written..] and advances by exactly what it stored, '
-            'and that InputEmpty/OutputFull are passed through with the accumulated totals. write_ncr\'s length table is '
-            'extracted exactly (interval propagation over all scalar values) and equals digits+3 with the &# ; frame. The inner '
-            'converters\' own semantics (C01-C04) and the digit loop arithmetic are not decided here.',
+    'text': 'The four with-replacement wrappers (Decoder::decode_to_utf8/utf16, Encoder::encode_from_utf8/utf16) are decided against the '
+            'documented manual procedure by a ghost-state run over every path from the entry to the loop head and through the loop, summarised '
+            'symbolically from MIR (all inputs and call histories at once): ghosts R (read so far), W (written so far), F (something was '
+            'replaced), K (inner result not yet acted upon) and, for the encoders, E (effective destination length: dst.len() when everything '
+            'is encodable, dst.len() - NCR_EXTRA behind its guard otherwise, and no conversion at all below NCR_EXTRA). Every inner call must be '
+            '(self, &src[R..], &mut dst[W..(E)], last); InputEmpty/OutputFull are returned with (R, W, F); a Malformed result is followed by '
+            'exactly EF BF BD (resp. FFFD) stored at dst[W..] and an Unmappable one by write_ncr(c, &mut dst[W..]), W advancing by exactly what was '
+            'stored and F becoming true exactly there; after an NCR the wrapper returns only when W >= E, with InputEmpty exactly when the input '
+            'is exhausted and not (last and pending state) for every completion of the facts the path fixes. At the loop head the ghosts must be '
+            'held by locals (inductive invariant local = ghost; candidates are the locals holding the ghost value on entry), which makes the '
+            'check independent of whether the inner call sits at the top of the loop, at its bottom or once before it. write_ncr\'s length table is '
+            'extracted exactly (interval propagation over all scalar values) and equals digits+3 with the &# ; frame; its digit loop is decided by '
+            'verification conditions over its acyclic paths. The inner converters\' own semantics (C01-C04) are not decided here.',
     'note': 'Trusted: rustc MIR, mirx, rule library, slice indexing semantics.',
-    'technique': 'bounded path enumeration with symbolic summaries over rustc MIR + exact interval extraction (write_ncr)',
+    'technique': 'ghost-state procedure check over bounded path enumeration with symbolic summaries (rustc MIR) and an inferred loop-head invariant + exact interval extraction (write_ncr)',
 }
 CONFIGS = {'quick': ['default'], 'thorough': ['default', 'noalloc', 'simd']}
 
@@ -628,217 +632,9 @@ def enc_wrapper(rep, f, c, fn, inner):
 
 
 def wrapper(rep, f, c, fn, inner, errvar, repl, is_enc):
-    if not is_enc:
-        return dec_wrapper(rep, f, c, fn, inner, errvar, repl)
-    if os.environ.get('VERIF_C09_OLD_ENC') != '1':
-        return enc_wrapper(rep, f, c, fn, inner)
-    b = f.body(fn)
-    if b is None:
-        rep.undecidable('C09-D1', fn, 'function not found', None, c)
-        return
-    site = sp_str(b.raw['span'])
-    heads = loop_heads(b)
-    if len(heads) != 1:
-        rep.undecidable('C09-D1', fn, 'expected exactly one loop, found %d' % len(heads), site, c)
-        return
-    H = heads[0]
-    # roles are discovered structurally (robust to renamed locals): the loop-carried locals used to slice src / dst for the inner
-    # call, and the bool that is false before the loop and set to true inside it
-    flag = TRl = TWl = effl0 = None
-    try:
-        probe = region_paths(b, H)
-    except OverflowError as e:
-        rep.undecidable('C09-D1', fn, str(e), site, c)
-        return
-    for p_ in probe:
-        ic_ = [e for e in p_.calls() if e[1] == inner]
-        if len(ic_) == 1:
-            s_ix, d_ix = index_from(ic_[0][2][1]), index_from(ic_[0][2][2])
-            if s_ix and s_ix[1][0] == 'init':
-                TRl = s_ix[1][1]
-            if d_ix and d_ix[1][0] == 'init':
-                TWl = d_ix[1][1]
-            if d_ix and len(d_ix) == 3 and d_ix[2][0] == 'init':
-                effl0 = d_ix[2][1]
-    in_loop = b.reach_from([H])
-    for i, l in enumerate(b.locals):
-        if l['ty'] == 'bool' and i > b.arg_count:
-            ds = [d for d in b.defs.get(i, []) if d[2] == 'assign' and 'use' in d[3]['rv'] and op_int(d[3]['rv']['use']) is not None]
-            vals = sorted((op_int(d[3]['rv']['use']), d[0] in in_loop and d[0] != 0) for d in ds)
-            if len(b.defs.get(i, [])) == 2 and [v for v, _ in vals] == [0, 1] and any(v == 1 and inl for v, inl in vals):
-                flag = i
-    if None in (flag, TRl, TWl):
-        rep.undecidable('C09-D1', fn, 'accumulators (read/written totals, error flag) not found', site, c)
-        return
-    SRC, DST, LAST = ('loc', 2), ('loc', 3), ('loc', 4)
-    TR, TW, FL = ('init', TRl), ('init', TWl), ('init', flag)
-
-    def ob(name, ok, msg, at=None, ex=None):
-        return rep.ob('C09-D1.' + name, fn, ok, msg, at or site, ex, c)
-
-    # --- initialisation on every path from entry to the loop head
-    try:
-        pre = [summarize(b, blks, end) for blks, end in enumerate_block_paths(b, 0, stop=[H])]
-    except OverflowError as e:
-        rep.undecidable('C09-D1', fn, str(e), site, c)
-        return
-    to_head = [p for p in pre if p.end == ('stop', H)]
-    ok_init = bool(to_head) and all(p.env.get(flag) == ('c', 0, 'bool') and p.env.get(TRl) == C(0) and p.env.get(TWl) == C(0) for p in to_head)
-    ob('init', ok_init, 'flag/total_read/total_written are not initialised to false/0/0 before the loop')
-    eff = None
     if is_enc:
-        effl = effl0
-        eff = ('init', effl) if effl is not None else None
-        # effective_dst_len: dst_len when can_encode_everything, dst_len - NCR_EXTRA otherwise
-        ncr = f.consts.get('NCR_EXTRA', {}).get('int')
-        good = True
-        seen_kinds = set()
-        for p in to_head:
-            v = p.env.get(effl)
-            cee = [e for e in p.conds() if is_call(e[1], 'Encoding::can_encode_everything')]
-            if len(cee) != 1:
-                good = False
-                continue
-            if cee[0][2] is True:
-                good &= v == ('len', DST)
-                seen_kinds.add('all')
-            else:
-                good &= unchecked_sub(v) == ('bin', 'Sub', ('len', DST), C(ncr))
-                # guarded by dst_len >= NCR_EXTRA, however it is tested
-                g = fits(p, ('len', DST), C(ncr))
-                good &= bool(g) and all(g)
-                seen_kinds.add('ncr')
-        ob('effective-len', good and seen_kinds == {'all', 'ncr'} and ncr == 10,
-           'effective_dst_len is not dst.len() (can_encode_everything) / dst.len() - NCR_EXTRA (otherwise, guarded by dst.len() >= NCR_EXTRA)',
-           None, {'NCR_EXTRA': ncr})
-        # early exits (dst_len < NCR_EXTRA): no conversion call, counts 0,0,false; InputEmpty only if src empty and no pending state at end
-        early = [p for p in pre if p.end[0] == 'return']
-        ok_early = True
-        for p in early:
-            rv = p.env.get(0)
-            ok_early &= not p.calls(inner.rsplit('::', 1)[-1])
-            ok_early &= rv is not None and rv[0] == 'agg' and rv[2][1:] == (C(0), C(0), ('c', 0, 'bool'))
-            g = fits(p, ('len', DST), C(ncr))
-            ok_early &= bool(g) and not any(g)
-            if rv is not None and rv[0] == 'agg' and variant_name(rv[2][0]) in ('InputEmpty', 'OutputFull'):
-                ok_early &= decides_input_empty(p, [(('is_empty', SRC), True), (('bin', 'Eq', ('len', SRC), C(0)), True), (('bin', 'Ne', ('len', SRC), C(0)), False)],
-                                                LAST, variant_name(rv[2][0]))
-            else:
-                ok_early = False
-        ob('early-exit', ok_early and len(early) >= 2,
-           'the dst.len() < NCR_EXTRA exits do not have the documented shape (no conversion, (_,0,0,false), InputEmpty only for empty input without pending state)')
-
-    # --- one loop iteration
-    try:
-        paths = region_paths(b, H)
-    except OverflowError as e:
-        rep.undecidable('C09-D1', fn, str(e), site, c)
-        return
-    live = [p for p in paths if p.end[0] != 'diverge']
-    rep.count('paths:' + fn, len(live))
-    res_expr = None
-    kinds = {'InputEmpty': 0, 'OutputFull': 0, errvar: 0}
-    for p in live:
-        ic = p.calls(inner.rsplit('::', 1)[-1])
-        ic = [e for e in ic if e[1] == inner]
-        at = sp_str(b.blocks[p.blocks[-1]]['tsp'])
-        if not ob('one-inner-call', len(ic) == 1, 'an iteration makes %d calls of %s (must be exactly one)' % (len(ic), inner), at):
-            continue
-        call = ic[0]
-        args = call[2]
-        res = ('call', inner, args, call[3])
-        a_self = strip_ref(args[0]) == ('loc', 1)
-        s_ix = index_from(args[1])
-        d_ix = index_from(args[2])
-        ok_src = s_ix is not None and len(s_ix) == 2 and s_ix[0] == SRC and s_ix[1] == TR
-        if is_enc:
-            ok_dst = d_ix is not None and len(d_ix) == 3 and d_ix[0] == DST and d_ix[1] == TW and d_ix[2] == eff
-        else:
-            ok_dst = d_ix is not None and len(d_ix) == 2 and d_ix[0] == DST and d_ix[1] == TW
-        ob('inner-args', a_self and ok_src and ok_dst and args[3] == LAST,
-           'inner call is not (self, &src[total_read..], &mut dst[total_written..%s], last)' % ('effective_dst_len' if is_enc else ''), at,
-           {'src': expr_str(args[1], b)[:120], 'dst': expr_str(args[2], b)[:160]})
-        # which arm?
-        arm = [e for e in p.conds() if e[1][0] == 'variant' and e[1][1] == tuple_field(res, 0)]
-        if not ob('match-on-result', len(arm) == 1 and arm[0][2] in kinds, 'iteration does not match on the inner result exactly once', at):
-            continue
-        v = arm[0][2]
-        kinds[v] += 1
-        TR1 = ('bin', 'Add', TR, tuple_field(res, 1))
-        TW1 = ('bin', 'Add', TW, tuple_field(res, 2))
-        flag_sets = [e for e in p.events if e[0] == 'set' and e[1] == flag]
-        if v in ('InputEmpty', 'OutputFull'):
-            rv = p.env.get(0)
-            ok = p.end[0] == 'return' and rv is not None and rv[0] == 'agg' and len(rv[2]) == 4 and \
-                variant_name(rv[2][0]) == v and rv[2][1] == TR1 and rv[2][2] == TW1 and rv[2][3] == FL
-            ob('passthrough-' + v, ok and not flag_sets and not p.stores(),
-               '%s arm does not return (CoderResult::%s, total_read+read, total_written+written, flag) unchanged' % (v, v), at)
-            continue
-        # error arm
-        ob('flag-set', len(flag_sets) == 1 and flag_sets[0][2] == ('c', 1, 'bool'), 'the error arm does not set the flag to true exactly once', at)
-        if not is_enc:
-            st = [e for e in p.stores()]
-            want = []
-            ok = len(st) == len(repl) and p.end[0] == 'back'
-            for i, e in enumerate(st):
-                if i >= len(repl):
-                    break
-                place, val = e[1], e[2]
-                pidx = None
-                if place[0] == 'idx' and strip_ref(place[1]) == DST:
-                    pidx = place[2]
-                ok &= pidx is not None and add_terms(pidx) == add_terms(('bin', 'Add', TW1, C(i))) and is_c(val, repl[i])
-            ok &= add_terms(p.env.get(TWl)) == add_terms(('bin', 'Add', TW1, C(len(repl)))) and p.env.get(TRl) == TR1
-            ob('replacement-units', ok, 'the Malformed arm does not store exactly %s at dst[total_written..] and advance by %d' % (['%X' % x for x in repl], len(repl)), at,
-               {'stores': [(expr_str(e[1], b)[:60], expr_str(e[2], b)) for e in st]})
-        else:
-            nc = [e for e in p.calls('write_ncr') if e[1] == 'write_ncr']
-            ok = len(nc) == 1 and not p.stores()
-            if ok:
-                a = nc[0][2]
-                payload = ('fld', ('as', tuple_field(res, 0), 'Unmappable'), '0')
-                d2 = index_from(a[1])
-                ok &= a[0] == payload and d2 is not None and len(d2) == 2 and d2[0] == DST and d2[1] == TW1
-                ncr_res = ('call', 'write_ncr', a, nc[0][3])
-                TW2 = p.env.get(TWl)
-                ok &= add_terms(TW2) == add_terms(('bin', 'Add', TW1, ncr_res)) and p.env.get(TRl) == TR1
-                # continuation decision
-                # total_written >= effective_dst_len, whichever way round it is written
-                ge = []
-                for e in p.conds():
-                    if e[1][0] == 'bin' and e[1][1] in ('Ge', 'Lt', 'Le', 'Gt') and isinstance(e[2], bool):
-                        op_, x_, y_ = e[1][1], e[1][2], e[1][3]
-                        if op_ in ('Le', 'Gt'):
-                            op_, x_, y_ = {'Le': 'Ge', 'Gt': 'Lt'}[op_], y_, x_
-                        try:
-                            same = add_terms(x_) == add_terms(TW2) and y_ == eff
-                        except Exception:
-                            same = False
-                        if same:
-                            ge.append((e[2] is True) if op_ == 'Ge' else (e[2] is False))
-                if len(ge) != 1:
-                    ok = False
-                else:
-                    full = ge[0]
-                    if not full:
-                        ok &= p.end[0] == 'back'
-                    else:
-                        rv = p.env.get(0)
-                        ok &= p.end[0] == 'return' and rv is not None and rv[0] == 'agg' and rv[2][1] == TR1 and add_terms(rv[2][2]) == add_terms(TW2) \
-                            and rv[2][3] == ('c', 1, 'bool')
-                        if ok:
-                            vn = variant_name(rv[2][0])
-                            if vn in ('InputEmpty', 'OutputFull'):
-                                ok &= decides_input_empty(p, [(('bin', 'Eq', TR1, ('len', SRC)), True), (('bin', 'Eq', ('len', SRC), TR1), True),
-                                                              (('bin', 'Ne', TR1, ('len', SRC)), False), (('bin', 'Ne', ('len', SRC), TR1), False)], LAST, vn)
-                            else:
-                                ok = False
-            ob('ncr-arm', ok, 'the Unmappable arm does not write one NCR for the reported character at dst[total_written..], advance by its length, '
-               'and decide InputEmpty/OutputFull as documented', at)
-    ob('arms', all(kinds[k] >= 1 for k in kinds), 'not every result kind is handled: %r' % kinds, None, dict(kinds))
-    # the flag is assigned nowhere else
-    all_sets = [(bi, s) for bi, si, k, s in b.defs.get(flag, [])]
-    ob('flag-writes', len(all_sets) == 2, 'the flag is assigned %d times (expected: initialisation and the error arm)' % len(all_sets))
+        return enc_wrapper(rep, f, c, fn, inner)
+    return dec_wrapper(rep, f, c, fn, inner, errvar, repl)
 
 
 def write_ncr(rep, f, c):
